@@ -344,6 +344,9 @@ int main(int argc, char **argv)
 {
     char pid[8]; snprintf(pid, sizeof pid, "C%02d", PROP);
     vf_init(argc, argv, strdup(pid), "model_checking");
+#if PROP == 7
+    vf_quick_is_deep();      /* C07's thorough universes take half a minute: the quick tier uses them too */
+#endif
     { pixman_region16_t e16; pixman_region_init(&e16); r16_empty_data = e16.data; pixman_region32_t e32; pixman_region32_init(&e32); r32_empty_data = e32.data; }
     int th = vf_is_thorough();
     vf_rule = "E2 explicit-state exploration of region states: a state is a point set of a finite grid universe (bitmask of cells) plus its construction "
